@@ -49,7 +49,7 @@ GenDbs(n) == Structured
              \cup RandomSetOfSubsets(n, 16, Grid) \cup RandomSetOfSubsets(n, 40, Grid)
              \cup RandomSetOfSubsets((n + 1) \div 2, 90, Grid)
 
-DbCase(d) == [kind   |-> "b", db |-> d, bump |-> Pick(BOOLEAN), rev |-> Pick(BOOLEAN),
+DbCase(d) == [kind   |-> "b", db |-> d, bump |-> Pick(BOOLEAN), rev |-> Pick(BOOLEAN), off |-> Pick(Offsets),
               finds  |-> [i \in 1..NFind |-> [q |-> RndQuery(d), index |-> Pick(PageIndex), limit |-> Pick(PageLimit)]],
               pages  |-> [i \in 1..NPages_ |-> [q |-> RndQuery(d), L |-> Pick(PageLimit \ {NOLIMIT})]],
               facets |-> [i \in 1..NFacet |-> [q |-> RndQuery(d), d |-> Pick(Dims)]]]
@@ -60,12 +60,13 @@ Next == /\ c.kind = "root"
            \/ GenPart \in {"b", "ab"} /\ c' \in {DbCase(d) : d \in GenDbs(NDb)}
 Spec == Init /\ [][Next]_vars
 
-QJson(q) == [hasrun |-> q.hasrun, run |-> q.run, tg |-> q.tg, tk |-> q.tk, al |-> q.al, sv |-> q.sv]
+QJson(q) == [hasrun |-> q.hasrun, run |-> ShiftExpr(q.run, c.off), tg |-> q.tg, tk |-> q.tk, al |-> q.al, sv |-> q.sv]
 Emit ==
     CASE c.kind = "a" -> PrintT(<<"CASE", ToJson([kind |-> "a", e |-> c.e])>>)
       [] c.kind = "b" ->
            PrintT(<<"CASE", ToJson(
-               [kind |-> "b", db |-> c.db, bump |-> c.bump, rev |-> c.rev,
+               \* database and run-id expressions are printed shifted by c.off (Search!ShiftDb)
+               [kind |-> "b", db |-> ShiftDb(c.db, c.off), bump |-> c.bump, rev |-> c.rev, off |-> c.off,
                 finds  |-> [i \in DOMAIN c.finds |-> [q |-> QJson(c.finds[i].q), index |-> c.finds[i].index, limit |-> c.finds[i].limit]],
                 pages  |-> [i \in DOMAIN c.pages |->
                               [q |-> QJson(c.pages[i].q), L |-> c.pages[i].L,
